@@ -19,12 +19,17 @@ def snapshot():
         if m is None or not name.startswith("simple_ddl_parser") or name.endswith("parsetab"):
             continue
         for k, v in sorted(vars(m).items()):
+            if isinstance(v, types.FunctionType) and getattr(v, "__module__", None) == name:
+                _defaults(out, "%s.%s" % (name, k), v)
             if k.startswith("__") or isinstance(v, (types.ModuleType, types.FunctionType, types.BuiltinFunctionType, logging.Logger)):
                 continue
             if isinstance(v, type):
                 if getattr(v, "__module__", None) != name:
                     continue
                 for ak, av in sorted(vars(v).items()):
+                    fn = getattr(av, "__func__", av)
+                    if isinstance(fn, types.FunctionType):
+                        _defaults(out, "%s.%s.%s" % (name, k, ak), fn)
                     if ak.startswith("__") or callable(av) or isinstance(av, (staticmethod, classmethod, property, logging.Logger)):
                         continue
                     out["%s.%s.%s" % (name, k, ak)] = _enc(av)
@@ -48,6 +53,14 @@ def tables_digest():
         except Exception:  # noqa
             h.update(b"?")
     return h.hexdigest()
+
+
+def _defaults(out, label, fn):
+    """Mutable default argument values live on the function object and are shared by every call in the process."""
+    ds = list(fn.__defaults__ or ()) + list((fn.__kwdefaults__ or {}).values())
+    ds = [d for d in ds if isinstance(d, (dict, list, set))]
+    if ds:
+        out[label + ":defaults"] = _enc(ds)
 
 
 def _enc(v):
